@@ -673,11 +673,8 @@ class XReplaceNonChild:
     def spec(self, pre, R, op, out):
         e = Exp()
         e.adopt(R["new"], PA)
-        if op["del"]:
-            # a failing edit must leave the *tree* unchanged; what it does to
-            # the registry entry of a node that is not its child is not stated
-            for d in pre.subtree(R["old"]):
-                e.adopt(d, RG)
+        # a failed replace discards nothing: every registration stays (frame), also that of the
+        # node that was wrongly named as the old child and is alive somewhere else
         return e
 
 
